@@ -77,6 +77,14 @@ Definition stable (keys : list N) (r0 : N -> obsv) (stages : list (N -> obsv)) :
 Definition stable_b (keys : list N) (r0 : N -> obsv) (stages : list (N -> obsv)) : bool :=
   forallb (fun st => forallb (fun k => obsv_eqb (st k) (r0 k)) keys) stages.
 
+(** * A second incarnation: the recovered store takes new acknowledged writes, is closed and
+      reopened; every key then holds its last new write, or what it held after the first recovery *)
+Definition second_ok (keys : list N) (r1 : N -> obsv) (bs2 : list batch) (r2 : N -> obsv) : Prop :=
+  forall k, In k keys -> r2 k = last_write k (concat bs2) (r1 k).
+
+Definition second_ok_b (keys : list N) (r1 : N -> obsv) (bs2 : list batch) (r2 : N -> obsv) : bool :=
+  forallb (fun k => obsv_eqb (r2 k) (last_write k (concat bs2) (r1 k))) keys.
+
 (** * Side conditions of the partial theorems *)
 
 (** no WAL flush can fall strictly inside a request: only its first entry may rotate the
